@@ -1363,8 +1363,13 @@ func (f *fragment) rangeLT(bitDepth uint, predicate int64, allowEquality bool) (
 		upredicate = uint64(-predicate)
 	}
 
-	// If predicate is positive, return all positives less than predicate and all negatives.
-	if (predicate >= 0 && allowEquality) || (predicate >= -1 && !allowEquality) {
+	// Nothing non-negative is less than zero: only the negatives qualify.
+	if predicate == 0 && !allowEquality {
+		return b.Intersect(f.row(bsiSignBit)), nil
+	}
+
+	// If predicate is not negative, return all non-negatives less than predicate and all negatives.
+	if predicate >= 0 {
 		pos, err := f.rangeLTUnsigned(b.Difference(f.row(bsiSignBit)), bitDepth, upredicate, allowEquality)
 		if err != nil {
 			return nil, err
@@ -1432,8 +1437,8 @@ func (f *fragment) rangeGT(bitDepth uint, predicate int64, allowEquality bool) (
 		upredicate = uint64(-predicate)
 	}
 
-	// If predicate is positive, return all positives greater than predicate.
-	if (predicate >= 0 && allowEquality) || (predicate >= -1 && !allowEquality) {
+	// If predicate is not negative, return all non-negatives greater than predicate.
+	if predicate >= 0 {
 		return f.rangeGTUnsigned(b.Difference(f.row(bsiSignBit)), bitDepth, upredicate, allowEquality)
 	}
 
